@@ -33,6 +33,12 @@ CHECKS = {
  "C13": ("exploration", "typed-chaos documents (plausible skeleton overwritten by random-kind values and cyclic/dangling references under every key the query code reads); every public read-only query is called for every object id inside an isolated worker with an 8 MiB stack, allocation limits and a watchdog; the oracle is totality",
          "trusted: the worker's process-level observations; hang verdicts need confirmation alone with a 60 s budget",
          "property-based testing (proptest) with a totality oracle observed from an isolated worker process"),
+ "C04": ("exploration", "structure-aware mutants of valid files from three independent producers and grammar-directed adversarial constructions for all eight byte-level entry points, evaluated in an isolated worker process that observes panics (overflow checks on), aborts, stack overflows on an 8 MiB stack, allocation requests unrelated to the input size and confirmed hangs; thorough tier adds coverage-guided libFuzzer campaigns",
+         "trusted: the worker's process-level observations (exit status, panic hook, counting allocator with the stated thresholds, watchdog with confirmation run)",
+         "structure-aware mutation fuzzing driven by proptest plus grammar-based generators; process-isolated totality oracle; cargo-fuzz/libFuzzer in the thorough tier"),
+ "C15": ("exploration", "mapping tables are generated as ordered definition lists with deliberate overlaps/adjacencies and rendered as CMaps with randomised sectioning, range splitting and white-space; decode_text over the mapped codes must equal the 'last definition wins' reference model",
+         "trusted: the reference table model and the CMap renderer (Adobe template envelope)",
+         "model-based property testing (proptest): reference mapping table vs get_font_encoding + decode_text"),
 }
 NA = {}
 def main():
